@@ -162,14 +162,16 @@ def run_case(base, case, acc):
             xe = observe.xref_errors(model)
         except Exception as e:
             xe = [f"cross references unreadable: {type(e).__name__}: {e}"]
+        if name == "ctx.exit" and isinstance(exc, TypeError) and "of interface type optlang.glpk_interface to model of type optlang.glpk_exact_interface" in str(exc):
+            st["exit_failed_known"] = True  # from here on the model is left half undone
         if xe:
             st["ok"] = False
             cls = xref_class(xe[0])
             key = f"C02/xref/{cls}/{name}"
             if cls == "lists-reaction-that-is-not-in-the-model" and all(dangling_is_outside_model(model, e) for e in xe if "dangling" in e) and all("dangling" in e for e in xe):
                 key = "C02/xref/metabolite-or-gene-lists-a-reaction-outside-the-model"
-            if name == "ctx.exit" and isinstance(exc, TypeError) and "of interface type optlang.glpk_interface to model of type optlang.glpk_exact_interface" in str(exc):
-                # the exit itself raised (recorded optlang mechanism of C01/C03): the undo
+            if st.get("exit_failed_known"):
+                # the exit itself (or an earlier, inner one) raised (recorded optlang mechanism of C01/C03): the undo
                 # entries behind the failing one never ran, the model is left half undone
                 key = "C02/xref/after-context-exit-that-raised/glpk_exact-objects-of-glpk-class-after-copy"
             acc.violation(key, f"after {name}: {xe[0]}", w(xref=xe[:6], raised=hist.describe_exc(exc) if exc else None))
